@@ -142,7 +142,7 @@ def stepObj (s : Sess) (c : Cmd) (m : Mem) (k : Nat) (d : Deque) (l : List Nat) 
       if c.op == "mk_filter" then
         let r := d.filter predEven m
         -- the predicate is called (and logs) only once the result object exists
-        (r.1, r.2.1, r.2.2, if d.size = 0 ∨ (Deque.new d.cap m).2.1.isNone then [] else (d.foreach m).1)
+        (r.1, r.2.1, r.2.2, if d.size = 0 ∨ (Deque.new d.cap d.triple m).2.1.isNone then [] else (d.foreach m).1)
       else if c.op == "mk_copy_shallow" then let r := d.copy none m; (r.1, r.2.1, r.2.2, [])
       else let r := d.copy (some cp1000) m; (r.1, r.2.1, r.2.2, if r.1 == .ok then (d.foreach m).1 else [])
     let sp : Stat × Option (List Nat) × List Nat :=
@@ -239,7 +239,7 @@ def step (s : Sess) (c : Cmd) : Sess × String × String :=
   | "new" | "new_default" =>
     if (getM s k).isSome then early s m "busy" else
     let cap := if c.op == "new" then c.nat "cap" Gen.DEQUE_DEFAULT_CAPACITY else Gen.DEQUE_DEFAULT_CAPACITY
-    let r := Deque.new cap m
+    let r := Deque.new cap (if c.op == "new" then .conf else .libc) m   -- cc_deque_new: C library triple
     let sp : Stat × Option (List Nat) := if c.fired > 0 then (.errAlloc, none) else (.ok, some [])
     fin (setS (setM { s with mem := r.2.2 } k r.2.1) k sp.2) (fmtStat sp.1) (fmtStat r.1)
   | "destroy" =>
